@@ -42,10 +42,17 @@ type OpJ struct {
 	Ord   [][2]string `json:"ord,omitempty"` // visiting order of the cache observed on the real store (hint for the model)
 	Shard int         `json:"shard"`
 	WT    bool        `json:"wt"`
+	Intr  *IntrJ      `json:"intr,omitempty"` // flush/stop only: another goroutine's call in the window of this flush
+}
+
+// IntrJ: right before the flush writes entry number At of its snapshot, another goroutine issues Op on the store.
+type IntrJ struct {
+	At int `json:"at"`
+	Op OpJ `json:"op"`
 }
 
 type Case struct {
-	Kind    string   `json:"kind"` // seq | probe
+	Kind    string   `json:"kind"` // seq | probe (some flush/stop carries an intruder)
 	Shard   int      `json:"shard"`
 	Count   int      `json:"count"` // shardCount
 	WT      bool     `json:"wt"`    // write-through (syncPeriod == 0)
@@ -55,7 +62,6 @@ type Case struct {
 	CrashAt int      `json:"crashAt"` // the process dies when it is about to make API call number crashAt; -1: never
 	Gain    int      `json:"gain"`    // the shard of the server that takes over at the end
 	Wf      bool     `json:"wf"`      // names determine upstream and cache key (as in the limiter): judged; otherwise correspondence only
-	Probe   *Probe   `json:"probe,omitempty"`
 }
 
 type locEntry struct {
@@ -117,12 +123,12 @@ func (cs *Case) upstreams() []string {
 			set[o.Key] = true
 		}
 	}
-	if cs.Probe != nil {
-		for _, o := range cs.Probe.Intruders {
-			if o.Cond != nil {
-				set[o.Cond.Up] = true
+	for _, o := range cs.Ops {
+		if o.Intr != nil {
+			if o.Intr.Op.Cond != nil {
+				set[o.Intr.Op.Cond.Up] = true
 			}
-			set[o.Key] = true
+			set[o.Intr.Op.Key] = true
 		}
 	}
 	out := make([]string, 0, len(set))
@@ -245,63 +251,78 @@ func (r *runner) loc() []locEntry {
 }
 
 type outcome struct {
-	err     error
-	crashed bool
-	hung    bool
+	err      error
+	crashed  bool
+	hung     bool
 	panicked string
 }
 
-// exec runs one store call on its own goroutine: a crash (runtime.Goexit in the API stand-in) ends it, a hang is cut.
-func exec(f func() error) outcome {
-	ch := make(chan outcome, 1)
+func (o outcome) bad(what string) *failure {
+	if o.hung {
+		return &failure{kind: "judge", class: "c19.hang", what: what + " did not return within 20 s"}
+	}
+	if o.panicked != "" {
+		return &failure{kind: "judge", class: "c19.panic", what: what + " panicked: " + o.panicked}
+	}
+	return nil
+}
+
+// spawn runs one store call on its own goroutine: a crash (runtime.Goexit in the API stand-in) ends it.
+// The goroutine's id is sent first (injected concurrency needs to watch it).
+func spawn(f func() error) (gid chan string, done chan outcome) {
+	gid = make(chan string, 1)
+	done = make(chan outcome, 1)
 	go func() {
+		gid <- goID()
 		finished := false
 		defer func() {
 			if r := recover(); r != nil {
-				ch <- outcome{panicked: fmt.Sprint(r)}
+				done <- outcome{panicked: fmt.Sprint(r)}
 				return
 			}
 			if !finished {
-				ch <- outcome{crashed: true}
+				done <- outcome{crashed: true}
 			}
 		}()
 		err := f()
 		finished = true
-		ch <- outcome{err: err}
+		done <- outcome{err: err}
 	}()
+	return
+}
+
+func await(done chan outcome) outcome {
 	select {
-	case o := <-ch:
+	case o := <-done:
 		return o
 	case <-time.After(20 * time.Second):
 		return outcome{hung: true}
 	}
 }
 
-func (r *runner) do(op OpJ) outcome {
+func exec(f func() error) outcome {
+	_, done := spawn(f)
+	return await(done)
+}
+
+func (r *runner) thunk(op OpJ) func() error {
 	switch op.Op {
 	case "save":
 		obj := toObj(*op.Cond)
-		return exec(func() error { return r.store.Save(rig.UnHex(op.Key), obj) })
+		return func() error { return r.store.Save(rig.UnHex(op.Key), obj) }
 	case "delete":
-		return exec(func() error { return r.store.Delete(rig.UnHex(op.Key), rig.UnHex(op.Name)) })
+		return func() error { return r.store.Delete(rig.UnHex(op.Key), rig.UnHex(op.Name)) }
 	case "deleteUpstream":
-		return exec(func() error { return r.store.DeleteUpstream(rig.UnHex(op.Key)) })
+		return func() error { return r.store.DeleteUpstream(rig.UnHex(op.Key)) }
 	case "flush":
-		return exec(func() error { return r.store.Flush() })
+		return func() error { return r.store.Flush() }
 	case "stop":
-		o := exec(func() error { return r.store.Stop() })
-		if !o.crashed && !o.hung && o.panicked == "" && o.err == nil {
-			r.stopped = true
-		}
-		return o
+		return func() error { return r.store.Stop() }
 	case "load":
-		return exec(func() error { return r.store.Load() })
-	case "restart":
-		r.newStore(op.Shard, op.WT)
-		return outcome{}
+		return func() error { return r.store.Load() }
 	}
 	infra("unknown op %q", op.Op)
-	return outcome{}
+	return nil
 }
 
 // order hint for the model from the calls the real store made: which cache entries it visited, in which order
@@ -310,6 +331,9 @@ func orderHint(op OpJ, before []locEntry, log []callRec) [][2]string {
 	used := map[int]bool{}
 	seen := map[[2]string]bool{}
 	for _, c := range log {
+		if c.Intruder {
+			continue
+		}
 		switch {
 		case (op.Op == "flush" || op.Op == "stop") && c.Kind == "update" && c.Obj != nil:
 			for i, e := range before {
@@ -332,15 +356,21 @@ func orderHint(op OpJ, before []locEntry, log []callRec) [][2]string {
 	return ord
 }
 
+// obsJ is what the judge sees of one operation of the real store.
 type obsJ struct {
 	Op      OpJ        `json:"op"`
 	Loc     []locEntry `json:"loc"`     // cache before the operation
 	Stopped bool       `json:"stopped"` // a Stop() had returned nil on this store before
-	Points  []pointJ   `json:"points"`  // the API after every call the operation made
+	Points  []pointJ   `json:"points"`  // the API after every call the operation made (before the window)
+	Ran     bool       `json:"ran"`     // the intruder ran inside the window
+	IPoints []pointJ   `json:"ipoints"` // … the calls of the intruder
+	IRes    string     `json:"ires"`
+	Points3 []pointJ   `json:"points3"` // … the calls of the flush after the window
 	Api     []CondJ    `json:"api"`     // the API when it returned
 	Res     string     `json:"res"`
 }
 
+// stepJ is what is compared with the model, operation by operation.
 type stepJ struct {
 	Res     string     `json:"res"`
 	Loc     []locEntry `json:"loc"`
@@ -348,15 +378,24 @@ type stepJ struct {
 	NextRv  int        `json:"nextRv"`
 	Calls   int        `json:"calls"`
 	Stopped bool       `json:"stopped"`
+	Ran     bool       `json:"ran"`
+	IRes    string     `json:"ires"`
+	Seg1    []pointJ   `json:"seg1"`
+	Seg2    []pointJ   `json:"seg2"`
+	Seg3    []pointJ   `json:"seg3"`
 }
 
 type implRun struct {
-	Obs     []obsJ
-	Steps   []stepJ // completed operations
-	Ops     []OpJ   // operations with order hints
-	Crashed bool
-	Final   []CondJ
-	NextRv  int
+	Obs      []obsJ
+	Steps    []stepJ // completed operations
+	Ops      []OpJ   // operations as they really ran (order hints; a blocked intruder runs after its flush)
+	Crashed  bool
+	Partial  []pointJ // the crash points of the operation inside which the process died
+	Final    []CondJ
+	NextRv   int
+	Windows  int // intruders that ran inside the window of a flush
+	Deferred int // intruders that had to wait for the flush (store mutex)
+	Unopened int // windows that never opened (flush failed before / fewer entries)
 }
 
 type failure struct {
@@ -383,48 +422,159 @@ func plainKeys(cs *Case) []string {
 	return keys
 }
 
+func pts(p []pointJ) []pointJ {
+	if p == nil {
+		return []pointJ{}
+	}
+	return p
+}
+
+type mark struct{ calls, log, nextRv int }
+
+func (r *runner) mark() mark {
+	r.sim.mu.Lock()
+	defer r.sim.mu.Unlock()
+	return mark{r.sim.calls, len(r.sim.log), r.sim.nextRv}
+}
+
+func (r *runner) snaps(from, to int) []pointJ {
+	r.sim.mu.Lock()
+	defer r.sim.mu.Unlock()
+	return append([]pointJ{}, r.sim.snaps[from:to]...)
+}
+
+func (r *runner) api() []CondJ {
+	r.sim.mu.Lock()
+	defer r.sim.mu.Unlock()
+	return r.sim.contents()
+}
+
+// window is what happened to the intruder of one flush.
+type window struct {
+	opened   bool
+	inside   bool // it ran to its end inside the window
+	blocked  bool // it waits (store mutex): it runs when the flush is over
+	m1, m2   mark
+	outcome  outcome
+	done     chan outcome
+	fail     *failure
+}
+
 // runImpl drives the real store through the case.
 func runImpl(cs *Case) (*implRun, *failure) {
 	r := &runner{cs: cs, keys: plainKeys(cs)}
-	r.sim = newSim(cs.Init, nextRvOf(cs.Init), cs.Script, cs.CrashAt)
+	crashAt := cs.CrashAt
+	for _, op := range cs.Ops {
+		if op.Intr != nil {
+			crashAt = -1 // injected concurrency and a crash inside an operation are not combined
+		}
+	}
+	r.sim = newSim(cs.Init, nextRvOf(cs.Init), cs.Script, crashAt)
 	r.newStore(cs.Shard, cs.WT)
 	defer func() { k8sstore.VerifAbandon(r.store) }()
 	out := &implRun{}
 	for _, op := range cs.Ops {
+		if op.Op == "restart" {
+			st := stepJ{}
+			r.newStore(op.Shard, op.WT)
+			m := r.mark()
+			api := r.api()
+			op.Ord, op.Intr = nil, nil
+			out.Ops = append(out.Ops, op)
+			out.Obs = append(out.Obs, obsJ{Op: op, Loc: []locEntry{}, Points: pts(nil), IPoints: pts(nil), Points3: pts(nil), IRes: "ok", Api: api, Res: "ok"})
+			st = stepJ{Res: "ok", Loc: r.loc(), Api: api, NextRv: m.nextRv, Calls: m.calls, IRes: "ok", Seg1: pts(nil), Seg2: pts(nil), Seg3: pts(nil)}
+			out.Steps = append(out.Steps, st)
+			continue
+		}
 		before := r.loc()
 		stopped := r.stopped
-		r.sim.mu.Lock()
-		c0 := r.sim.calls
-		l0 := len(r.sim.log)
-		r.sim.mu.Unlock()
-		o := r.do(op)
-		if o.hung {
-			return nil, &failure{kind: "judge", class: "c19.hang", what: fmt.Sprintf("%s did not return within 20 s", op.Op)}
+		m0 := r.mark()
+		var win *window
+		if op.Intr != nil && (op.Op == "flush" || op.Op == "stop") {
+			win = r.arm(op.Intr)
 		}
-		if o.panicked != "" {
-			return nil, &failure{kind: "judge", class: "c19.panic", what: fmt.Sprintf("%s panicked: %s", op.Op, o.panicked)}
+		o := exec(r.thunk(op))
+		r.sim.setHook(nil)
+		if f := o.bad(op.Op); f != nil {
+			return nil, f
 		}
+		if win != nil && win.fail != nil {
+			return nil, win.fail
+		}
+		if op.Op == "stop" && !o.crashed && o.err == nil {
+			r.stopped = true
+		}
+		m3 := r.mark()
+		api := r.api()
 		r.sim.mu.Lock()
-		points := append([]pointJ{}, r.sim.snaps[c0:]...)
-		log := append([]callRec{}, r.sim.log[l0:]...)
-		calls := r.sim.calls
-		nextRv := r.sim.nextRv
-		api := r.sim.contents()
+		log := append([]callRec{}, r.sim.log[m0.log:m3.log]...)
 		r.sim.mu.Unlock()
-		op.Ord = nil
+		intr := op.Intr
+		op.Ord, op.Intr = nil, nil
 		if op.Op == "flush" || op.Op == "stop" || op.Op == "deleteUpstream" {
 			op.Ord = orderHint(op, before, log)
 		}
-		out.Ops = append(out.Ops, op)
 		res := classify(o.err)
 		if o.crashed {
 			// the operation never answered: it claims nothing
-			out.Obs = append(out.Obs, obsJ{Op: op, Loc: before, Stopped: stopped, Points: points, Api: api, Res: "other"})
+			out.Ops = append(out.Ops, op)
+			out.Partial = r.snaps(m0.calls, m3.calls)
+			out.Obs = append(out.Obs, obsJ{Op: op, Loc: before, Stopped: stopped, Points: pts(out.Partial), IPoints: pts(nil), Points3: pts(nil), IRes: "ok", Api: api, Res: "other"})
 			out.Crashed = true
 			break
 		}
-		out.Obs = append(out.Obs, obsJ{Op: op, Loc: before, Stopped: stopped, Points: points, Api: api, Res: res})
-		out.Steps = append(out.Steps, stepJ{Res: res, Loc: r.loc(), Api: api, NextRv: nextRv, Calls: calls, Stopped: r.stopped})
+		ob := obsJ{Op: op, Loc: before, Stopped: stopped, Points: pts(r.snaps(m0.calls, m3.calls)), IPoints: pts(nil), Points3: pts(nil), IRes: "ok", Api: api, Res: res}
+		st := stepJ{Res: res, Loc: r.loc(), Api: api, NextRv: m3.nextRv, Calls: m3.calls, Stopped: r.stopped, IRes: "ok"}
+		switch {
+		case win != nil && win.inside:
+			out.Windows++
+			op.Intr = intr
+			ob.Op = op
+			ob.Ran, ob.IRes = true, classify(win.outcome.err)
+			ob.Points = pts(r.snaps(m0.calls, win.m1.calls))
+			ob.IPoints = pts(r.snaps(win.m1.calls, win.m2.calls))
+			ob.Points3 = pts(r.snaps(win.m2.calls, m3.calls))
+			st.Ran, st.IRes = true, ob.IRes
+		case win != nil && !win.opened:
+			out.Unopened++
+			op.Intr = intr // the model must agree that the window does not open
+			ob.Op = op
+		}
+		st.Seg1, st.Seg2, st.Seg3 = ob.Points, ob.IPoints, ob.Points3
+		out.Ops = append(out.Ops, op)
+		out.Obs = append(out.Obs, ob)
+		out.Steps = append(out.Steps, st)
+		if win != nil && win.blocked {
+			// the intruder waited for the flush: it runs now, as an operation of its own
+			out.Deferred++
+			iop := intr.Op
+			ibefore := r.loc()
+			r.sim.openGate()
+			io := await(win.done)
+			if f := io.bad("deferred " + iop.Op); f != nil {
+				return nil, f
+			}
+			m4 := r.mark()
+			iapi := r.api()
+			r.sim.mu.Lock()
+			ilog := append([]callRec{}, r.sim.log[m3.log:m4.log]...)
+			r.sim.mu.Unlock()
+			for i := range ilog {
+				ilog[i].Intruder = false
+			}
+			iop.Ord, iop.Intr = nil, nil
+			if iop.Op == "flush" || iop.Op == "stop" || iop.Op == "deleteUpstream" {
+				iop.Ord = orderHint(iop, ibefore, ilog)
+			}
+			if iop.Op == "stop" && io.err == nil {
+				r.stopped = true
+			}
+			ires := classify(io.err)
+			ip := pts(r.snaps(m3.calls, m4.calls))
+			out.Ops = append(out.Ops, iop)
+			out.Obs = append(out.Obs, obsJ{Op: iop, Loc: ibefore, Stopped: stopped || (op.Op == "stop" && res == "ok"), Points: ip, IPoints: pts(nil), Points3: pts(nil), IRes: "ok", Api: iapi, Res: ires})
+			out.Steps = append(out.Steps, stepJ{Res: ires, Loc: r.loc(), Api: iapi, NextRv: m4.nextRv, Calls: m4.calls, Stopped: r.stopped, IRes: "ok", Seg1: ip, Seg2: pts(nil), Seg3: pts(nil)})
+		}
 	}
 	r.sim.mu.Lock()
 	out.Final = r.sim.contents()
@@ -446,7 +596,7 @@ func runImpl(cs *Case) (*implRun, *failure) {
 }
 
 // judgeGain: "a server that gains a shard loads exactly the persisted conditions of that shard, and nothing of other
-// shards" — evaluated with the real util.GetShardID on the real tracker contents, and against the model's load.
+// shards" — evaluated with the real util.GetShardID on the real tracker contents.
 func judgeGain(cs *Case, api []CondJ, gained []locEntry, res string) *failure {
 	want := []locEntry{}
 	for _, c := range api {
@@ -462,12 +612,12 @@ func judgeGain(cs *Case, api []CondJ, gained []locEntry, res string) *failure {
 	return nil
 }
 
+var reHexField = regexp.MustCompile(`"(name|up)":"([0-9a-f]*)"`)
+
 func show(v interface{}) string {
 	b, _ := json.Marshal(v)
-	s := string(b)
-	// readable names
-	s = regexp.MustCompile(`"(name|up)":"([0-9a-f]*)"`).ReplaceAllStringFunc(s, func(m string) string {
-		p := regexp.MustCompile(`"(name|up)":"([0-9a-f]*)"`).FindStringSubmatch(m)
+	s := reHexField.ReplaceAllStringFunc(string(b), func(m string) string {
+		p := reHexField.FindStringSubmatch(m)
 		return fmt.Sprintf("%q:%q", p[1], rig.UnHex(p[2]))
 	})
 	if len(s) > 600 {
@@ -477,14 +627,39 @@ func show(v interface{}) string {
 }
 
 // ---------------------------------------------------------------------------------------------------------
-// one sequential case: real store, model, judge
+// one case: real store, judge, model
 
-func modelArgs(cs *Case, ops []OpJ) map[string]interface{} {
+func shardArgs(cs *Case) map[string]interface{} {
 	return map[string]interface{}{"shard": cs.Shard, "wt": cs.WT, "steps": retry.DefaultRetry.Steps,
-		"shards": shardTable(cs.upstreams(), cs.Count), "api": cs.Init, "nextRv": nextRvOf(cs.Init), "ops": ops, "script": cs.Script}
+		"shards": shardTable(cs.upstreams(), cs.Count)}
+}
+
+type verdictJ struct {
+	Ok    bool
+	At    int
+	Point int
+	Name  string
+	Kind  int
+	Api   []CondJ
 }
 
 var classOfKind = map[int]string{0: "c19.acked-save-not-persisted", 1: "c19.stop-left-pending", 2: "c19.deleted-reappeared", 9: "c19.judge"}
+var whatOfKind = map[int]string{
+	0: "a condition whose write-through Save was acknowledged is not persisted with that spec and status",
+	1: "a local condition of the shard is not persisted although Stop/Flush returned nil",
+	2: "a condition whose deletion was acknowledged is in the API",
+	9: "claim broken"}
+
+const classRacedAck = "c19.acked-save-overwritten-by-running-flush"
+
+func describe(v verdictJ, obs []obsJ) string {
+	o := obs[v.At]
+	in := o.Op.Op
+	if o.Ran {
+		in += " with a concurrent " + o.Op.Intr.Op.Op + " in its window"
+	}
+	return fmt.Sprintf("%s: %q, at operation %d (%s), crash point %d of it; API there: %s", whatOfKind[v.Kind], rig.UnHex(v.Name), v.At, in, v.Point, show(v.Api))
+}
 
 func evalSeq(c *rig.Ctx, cs Case) (*failure, *implRun) {
 	impl, f := runImpl(&cs)
@@ -494,68 +669,79 @@ func evalSeq(c *rig.Ctx, cs Case) (*failure, *implRun) {
 	fail := func(f *failure) (*failure, *implRun) { return f, impl }
 	// the judge, on the real store's answers and the real tracker at every crash point
 	if cs.Wf {
-		var verdict struct {
-			Ok    bool
-			At    int
-			Point int
-			Name  string
-			Kind  int
-		}
-		args := map[string]interface{}{"shard": cs.Shard, "wt": cs.WT, "steps": retry.DefaultRetry.Steps,
-			"shards": shardTable(cs.upstreams(), cs.Count), "obs": impl.Obs}
-		if err := c.Model("C19.judge", args, &verdict); err != nil {
+		var v verdictJ
+		args := shardArgs(&cs)
+		args["obs"] = impl.Obs
+		args["full"] = false
+		if err := c.Model("C19.judge", args, &v); err != nil {
 			return fail(&failure{kind: "diff", class: "c19.model-error", what: "judge: " + err.Error()})
 		}
-		if !verdict.Ok {
-			o := impl.Obs[verdict.At]
-			var api []CondJ
-			if verdict.Point < len(o.Points) {
-				api = o.Points[verdict.Point].Api
-			} else {
-				api = o.Api
-			}
-			what := map[int]string{
-				0: "a condition whose write-through Save was acknowledged is not persisted with that spec and status",
-				1: "a local condition of the shard is not persisted although Stop/Flush returned nil",
-				2: "a condition whose deletion was acknowledged is in the API",
-				9: "claim broken"}[verdict.Kind]
-			return fail(&failure{kind: "judge", class: classOfKind[verdict.Kind], impl: api,
-				what: fmt.Sprintf("%s: %q, at operation %d (%s), after %d of its API calls; API there: %s", what, rig.UnHex(verdict.Name), verdict.At, o.Op.Op, verdict.Point+1, show(api))})
+		if !v.Ok {
+			return fail(&failure{kind: "judge", class: classOfKind[v.Kind], impl: v.Api, what: describe(v, impl.Obs)})
 		}
 	}
-	// correspondence with the model
+	// correspondence with the model, on the operations as they really ran
 	var m struct {
-		Steps []stepJ
-		Trace []pointJ
+		Steps     []stepJ
+		Judge     bool
+		JudgeFull bool
 	}
 	ops := append([]OpJ{}, impl.Ops...)
-	ops = append(ops, cs.Ops[len(impl.Ops):]...)
-	if err := c.Model("C19.run", modelArgs(&cs, ops), &m); err != nil {
+	if impl.Crashed {
+		ops = append(ops, cs.Ops[len(impl.Ops):]...)
+	}
+	margs := shardArgs(&cs)
+	margs["api"], margs["nextRv"], margs["ops"], margs["script"] = append([]CondJ{}, cs.Init...), nextRvOf(cs.Init), ops, append([]string{}, cs.Script...)
+	if err := c.Model("C19.run", margs, &m); err != nil {
 		return fail(&failure{kind: "diff", class: "c19.model-error", what: "run: " + err.Error()})
+	}
+	canonStep := func(s *stepJ) {
+		sortLoc(s.Loc)
+		sortConds(s.Api)
+		for _, seg := range [][]pointJ{s.Seg1, s.Seg2, s.Seg3} {
+			for i := range seg {
+				sortConds(seg[i].Api)
+			}
+		}
 	}
 	for i, st := range impl.Steps {
 		ms := m.Steps[i]
-		sortLoc(ms.Loc)
-		sortConds(ms.Api)
+		canonStep(&ms)
 		if rig.Canon(ms) != rig.Canon(st) {
 			return fail(&failure{kind: "diff", class: "c19.step", impl: st, model: ms,
-				what: fmt.Sprintf("operation %d (%s): model %s, real store %s", i, cs.Ops[i].Op, show(ms), show(st))})
+				what: fmt.Sprintf("operation %d (%s): model %s, real store %s", i, impl.Ops[i].Op, show(ms), show(st))})
 		}
 	}
-	// every crash point
-	var implTrace []pointJ
-	for _, o := range impl.Obs {
-		implTrace = append(implTrace, o.Points...)
+	if impl.Crashed {
+		// the crash points of the operation inside which the process died are a prefix of the model's
+		ms := m.Steps[len(impl.Steps)]
+		canonStep(&ms)
+		if len(impl.Partial) > len(ms.Seg1) || rig.Canon(ms.Seg1[:len(impl.Partial)]) != rig.Canon(pts(impl.Partial)) {
+			return fail(&failure{kind: "diff", class: "c19.trace", impl: impl.Partial, model: ms.Seg1,
+				what: fmt.Sprintf("crash points of the interrupted %s: model %s, real %s", impl.Ops[len(impl.Steps)].Op, show(ms.Seg1), show(impl.Partial))})
+		}
 	}
-	if len(implTrace) > len(m.Trace) || (!impl.Crashed && len(implTrace) != len(m.Trace)) {
-		return fail(&failure{kind: "diff", class: "c19.trace-length", impl: len(implTrace), model: len(m.Trace),
-			what: fmt.Sprintf("the real store made %d API calls, the model %d", len(implTrace), len(m.Trace))})
+	if cs.Wf && !impl.Crashed && !m.Judge {
+		return fail(&failure{kind: "diff", class: "c19.model-judge", what: "the model's own history breaks the judge (the theorem c19_durable says it cannot)"})
 	}
-	for i := range implTrace {
-		sortConds(m.Trace[i].Api)
-		if rig.Canon(m.Trace[i]) != rig.Canon(implTrace[i]) {
-			return fail(&failure{kind: "diff", class: "c19.trace", impl: implTrace[i], model: m.Trace[i],
-				what: fmt.Sprintf("API after call %d: model %s, real %s", i, show(m.Trace[i]), show(implTrace[i]))})
+	// the property at full strength under concurrency: a Save acknowledged while a flush runs stays persisted
+	if cs.Wf && impl.Windows > 0 {
+		var v verdictJ
+		args := shardArgs(&cs)
+		args["obs"] = impl.Obs
+		args["full"] = true
+		if err := c.Model("C19.judge", args, &v); err != nil {
+			return fail(&failure{kind: "diff", class: "c19.model-error", what: "judge: " + err.Error()})
+		}
+		if v.Ok != m.JudgeFull {
+			return fail(&failure{kind: "diff", class: "c19.full-judge", impl: v.Ok, model: m.JudgeFull, what: "full-strength judge: model and real store differ"})
+		}
+		if !v.Ok {
+			cl := classRacedAck
+			if v.Kind != 0 {
+				cl = classOfKind[v.Kind]
+			}
+			return fail(&failure{kind: "judge", class: cl, impl: v.Api, what: describe(v, impl.Obs)})
 		}
 	}
 	// the model's Load on the final API (what the next holder sees)
@@ -571,6 +757,9 @@ func evalSeq(c *rig.Ctx, cs Case) (*failure, *implRun) {
 	sortLoc(ml.Loc)
 	want := []locEntry{}
 	for _, p := range ml.Persisted {
+		if util.GetShardID(rig.UnHex(p.Up), cs.Count) != cs.Gain {
+			return fail(&failure{kind: "diff", class: "c19.shard", what: "persistedOf disagrees with util.GetShardID"})
+		}
 		want = append(want, locEntry{Key: p.Up, Cond: p})
 	}
 	sortLoc(want)
@@ -591,7 +780,7 @@ func main() {
 	retry.DefaultRetry.Duration = time.Microsecond
 
 	rig.Main("C19", func(c *rig.Ctx) {
-		c.SetRule("a case = store configuration (shard, shardCount 1-3, write-through|periodic) x initial API contents x 1-12 operations (save/delete/deleteUpstream/flush/stop/load/restart on 4 upstreams x 3 names, colliding) x a fault script (ok|notFound|conflict|alreadyExists|transient|lost per API call) x a crash point x the shard of the next holder; run on the real NewK8sCacheStore over the fake clientset; distinct = distinct canonical case; non-trivial = a fault was consumed, or the process crashed inside an operation, or a restart happened")
+		c.SetRule("a case = store configuration (shard, shardCount 1-3, write-through|periodic) x initial API contents x 1-12 operations (save/delete/deleteUpstream/flush/stop/load/restart on 4 upstreams x 3 names, colliding; a flush/stop may carry a concurrent call of another goroutine injected into its window) x a fault script (ok|notFound|conflict|alreadyExists|transient|lost per API call) x a crash point x the shard of the next holder; run on the real NewK8sCacheStore over the fake clientset; distinct = distinct canonical case; non-trivial = a fault was consumed, or the process crashed inside an operation, or a restart happened, or a concurrent call was injected")
 		if retry.DefaultRetry.Steps < 1 {
 			infra("retry.DefaultRetry.Steps = %d", retry.DefaultRetry.Steps)
 		}
@@ -622,7 +811,7 @@ func main() {
 }
 
 func runAny(c *rig.Ctx, cs Case, record bool) bool {
-	f := evalCase(c, cs)
+	f, _ := evalSeq(c, cs)
 	if f != nil && record {
 		c.Fail(rig.Failure{Kind: f.kind, Class: f.class, What: f.what, Case: cs, Impl: f.impl, Model: f.model})
 	}
